@@ -243,7 +243,7 @@ func zzvIntake(o zzvOpts) {
 	bigCid := zzvMkCid(mh.SHA2_512, 64, 9)
 	p := peer.ID("peerA")
 
-	limit := verifrt.NondetRange("limit", 1, LIM)
+	limit := verifrt.NondetRange("limit", verifrt.Param("LIMLO", 1), LIM)
 	bs := &zzvBS{pool: pool}
 	var permitted [zzvN]bool
 	for i := range pool {
@@ -493,6 +493,19 @@ func zzvCheckIntake(pool []cid.Cid, bs *zzvBS, permitted [zzvN]bool, limit, repl
 
 	// ---- the task queue
 	verifrt.Assert("C36.task-queue-within-limit", len(tasks) <= limit)
+	// The queue bound is applied by go-peertaskqueue's PushTasksTruncated to "queued + pushed" before tasks for
+	// the same CID are merged, so near the bound an answer (or the upgrade of a queued want-have) can be cut
+	// although the merged queue would fit. "Every accepted want is answered" is therefore claimed only when
+	// the tasks still queued from before plus this message's wants fit under the bound.
+	nQueuedBefore := 0
+	if !served {
+		for i := range pool {
+			if pre[i].in {
+				nQueuedBefore++
+			}
+		}
+	}
+	room := nQueuedBefore+nWants2 <= limit
 	verifrt.Observe("tasks", len(tasks))
 	var haveTask, dhTask [zzvN]bool
 	for _, t := range tasks {
@@ -524,7 +537,7 @@ func zzvCheckIntake(pool []cid.Cid, bs *zzvBS, permitted [zzvN]bool, limit, repl
 			verifrt.Assert("C36.task-size-matches-block", td.BlockSize == bs.size[i] || (replace == 0 && td.BlockSize == 0))
 			if td.IsWantBlock {
 				verifrt.Assert("C36.block-only-for-want-block-or-small-block", src.block || bs.size[i] <= replace || (pending && pre[i].block))
-			} else if len(tasks) < limit {
+			} else if room {
 				// (when the queue is at its bound PushTasksTruncated drops the new task before merging, so an
 				// upgrade of a queued want-have to want-block can be lost: go-peertaskqueue behaviour, not claimed)
 				verifrt.Assert("C36.want-block-answered-with-block", !src.block)
@@ -537,7 +550,7 @@ func zzvCheckIntake(pool []cid.Cid, bs *zzvBS, permitted [zzvN]bool, limit, repl
 		}
 	}
 	// every accepted want of this message is answered (a task is queued) — unless the queue bound cut it
-	if len(tasks) < limit && !truncated {
+	if room && !truncated {
 		for i := range pool {
 			if !(want2[i] && fin[i].in) {
 				continue
